@@ -125,9 +125,17 @@ func init() {
 	reg(vapiPkg+"Advance", func(in *Interp, fr *frame, fn *ssa.Function, a []Value, site string) Value {
 		d := concDuration(a[0], "vapi.Advance")
 		in.clock()
+		// goroutines that are ready to run do so before time passes (a goroutine
+		// started just now reaches its first Sleep/receive at the current instant)
+		in.ensureSched().runOthers()
 		if d > 0 {
 			in.ensureSched().advance(d)
+			in.ensureSched().runOthers()
 		}
+		return nil
+	})
+	reg(vapiPkg+"Yield", func(in *Interp, fr *frame, fn *ssa.Function, a []Value, site string) Value {
+		in.ensureSched().runOthers()
 		return nil
 	})
 	reg(vapiPkg+"Elapsed", func(in *Interp, fr *frame, fn *ssa.Function, a []Value, site string) Value {
@@ -185,7 +193,17 @@ func init() {
 	reg("fmt.Sprint", func(in *Interp, fr *frame, fn *ssa.Function, a []Value, site string) Value {
 		return in.sprintf(mkStr("%v"), a[0].(GSlice))
 	})
-	for _, n := range []string{"fmt.Printf", "fmt.Println", "fmt.Print", "fmt.Fprintf", "fmt.Fprintln", "fmt.Fprint"} {
+	reg("fmt.Fprintf", func(in *Interp, fr *frame, fn *ssa.Function, a []Value, site string) Value {
+		w := a[0].(IfaceV)
+		str := in.sprintf(a[1].(StrV), a[2].(GSlice)).(StrV)
+		if w.t == nil || w.t == in.opaqueT {
+			return TupleV{I64(0), IfaceV{}}
+		}
+		m := in.findMethod(w.t, "Write")
+		obj := &ByteObj{id: nextID(), arr: ArrCopy(arrZero, I64(0), str.arr, str.off, str.len), cap: str.len, maxCap: str.len.hi}
+		return in.callFunction(fr, m, []Value{w.v, BSlice{obj: obj, off: I64(0), len: str.len, cap: str.len}}, nil, site)
+	})
+	for _, n := range []string{"fmt.Printf", "fmt.Println", "fmt.Print", "fmt.Fprintln", "fmt.Fprint"} {
 		reg(n, func(in *Interp, fr *frame, fn *ssa.Function, a []Value, site string) Value {
 			return TupleV{I64(0), IfaceV{}}
 		})
@@ -323,6 +341,7 @@ func init() {
 	registerTimeIntrinsics(reg)
 	registerBinaryIntrinsics(reg)
 	registerConcreteFallbacks(reg)
+	registerAddrStringers(reg)
 }
 
 func errorIface() *types.Interface {
@@ -358,12 +377,12 @@ func (in *Interp) logVal(iv IfaceV) interface{} {
 		if s, ok := concStr(v); ok {
 			return s
 		}
-		return byteSnap{arr: v.arr, off: v.off, len: v.len, max: int(v.len.hi)}
+		return byteSnap{arr: v.arr, off: v.off, len: v.len, max: snapMax(v.len)}
 	case BSlice:
 		if v.obj == nil {
 			return ""
 		}
-		return byteSnap{arr: v.obj.arr, off: v.off, len: v.len, max: int(v.len.hi)}
+		return byteSnap{arr: v.obj.arr, off: v.off, len: v.len, max: snapMax(v.len)}
 	}
 	if types.Implements(iv.t, errorIface()) {
 		return "err"
@@ -656,4 +675,11 @@ func (in *Interp) findMethod(t types.Type, name string) *ssa.Function {
 		}
 	}
 	return nil
+}
+
+func snapMax(l *Term) int {
+	if l.hi > 1<<16 {
+		return 1 << 16
+	}
+	return int(l.hi)
 }
